@@ -20,7 +20,7 @@ PERMS = {
 }
 EXTRA_KEYS = ["$connections", "$admin", "d", "nd", "n1", "$$user_u2", "$$permission_$u2"]
 VALS = ["v0", "7", "w1", "w2", "rv", "pwn", "tok", "ut", "t2", "t3"]
-PATS = ["*", "a*", "$$*", "$$", "*$$s"]
+PATS = ["*", "a*", "$$*", "$$", "*$$s", "$*", "*$*", "$", "*s", "**"]
 
 
 def make_tables(wd):
